@@ -1,10 +1,14 @@
 #!/usr/bin/env python3
-"""seed_install.py <ID> [mK ...] — confirm sub-agent mutants from /tmp/mut/<ID>/mK and install them as /verif/seeded/<ID>-mK/."""
+"""seed_install.py <ID> [mK ...] — confirm sub-agent mutants from $MUT_ROOT/<ID>/mK (default /tmp/mut) and install them as
+/verif/seeded/<ID>-<prefix>K/ (prefix $MUT_PREFIX, default m; round 2 uses n)."""
 import json, os, shutil, subprocess, sys
+ROOT = os.environ.get("MUT_ROOT", "/tmp/mut")
+PREFIX = os.environ.get("MUT_PREFIX", "m")
+NOTE = os.environ.get("MUT_NOTE", "")
 pid = sys.argv[1]
-ms = sys.argv[2:] or sorted(d for d in os.listdir(f"/tmp/mut/{pid}") if d.startswith("m") and os.path.isdir(f"/tmp/mut/{pid}/{d}"))
+ms = sys.argv[2:] or sorted(d for d in os.listdir(f"{ROOT}/{pid}") if d.startswith("m") and os.path.isdir(f"{ROOT}/{pid}/{d}"))
 for m in ms:
-    src = f"/tmp/mut/{pid}/{m}"
+    src = f"{ROOT}/{pid}/{m}"
     if not os.path.exists(f"{src}/patch.diff"):
         print(pid, m, "no patch"); continue
     c = subprocess.run(["/verif/confirm_mut.sh", src], capture_output=True, text=True)
@@ -14,7 +18,7 @@ for m in ms:
     print(pid, m, conf, "|", res[:300])
     if c.returncode != 0:
         print("   NOT CONFIRMED; not installed"); continue
-    dst = f"/verif/seeded/{pid}-{m}"
+    dst = f"/verif/seeded/{pid}-{PREFIX}{m[1:]}"
     os.makedirs(dst, exist_ok=True)
     shutil.copy(f"{src}/patch.diff", dst); shutil.copy(f"{src}/zz_demo_test.go", dst)
     try: meta = json.load(open(f"{src}/meta.json"))
@@ -22,5 +26,6 @@ for m in ms:
     meta["property"] = pid
     meta["author"] = "independent sub-agent given only the property text and a scratch worktree"
     meta["confirmed_by_me"] = {"how": "confirm_mut.sh on a scratch copy of /repo HEAD: demo test without patch / existing suite with patch / demo test with patch", "result": conf}
-    meta["check_result"] = {"cmd": f"./mutrun.sh seeded/{pid}-{m}/patch.diff {pid}", "result": res.split(":")[0] if res else ""}
+    if NOTE: meta["note"] = NOTE
+    meta["check_result"] = {"cmd": f"./mutrun.sh seeded/{pid}-{PREFIX}{m[1:]}/patch.diff {pid}", "result": res.split(":")[0] if res else ""}
     json.dump(meta, open(f"{dst}/meta.json", "w"), indent=1)
